@@ -98,3 +98,37 @@ pub fn f64_exact(v: f64) -> Option<crate::rat::Rat> {
     if ex >= 0 { if ex > 60 { return None; } Some(crate::rat::Rat::new(sign * m * (1i128 << ex), 1)) }
     else { if -ex > 120 { return None; } let mut m = m; let mut k = -ex; while k > 0 && m % 2 == 0 { m /= 2; k -= 1; } if k > 100 { return None; } Some(crate::rat::Rat::new(sign * m, 1i128 << k)) }
 }
+
+// ---- entry points other than construction ----------------------------------------------------------------
+// A spec line with `via=reset|clonefrom` and `prex=<samples>`: the filter first consumes `prex`, is then brought back to its
+// freshly constructed behaviour through `Reset::reset` / `Clone::clone_from(&fresh)`, and only then sees the case's inputs.
+// The case is judged exactly like a fresh run: that a reset / overwritten filter IS a fresh one is C12 / C20, and the
+// property's own clauses (first output, window contents, ...) must hold on that path too.  The driver publishes the two
+// fields of the spec being executed in a thread-local so that the per-family runners need no extra parameters.
+thread_local! { pub static ENTRY: std::cell::RefCell<Option<(String, Vec<String>)>> = std::cell::RefCell::new(None); }
+pub fn set_entry(s: &Spec) {
+    ENTRY.with(|e| *e.borrow_mut() = if s.has("via") && s.has("prex") { Some((s.get("via").to_string(), s.strs("prex"))) } else { None });
+}
+pub fn enter<F: signalo_traits::Reset + Clone>(f: F, stats: &mut Stats, feed: impl Fn(&mut F, &str)) -> F {
+    let entry = ENTRY.with(|e| e.borrow().clone());
+    let (via, pre) = match entry { Some(x) => x, None => return f };
+    stats.bump(format!("via:{}", via));
+    let fresh = f.clone();
+    let mut g = f;
+    for tok in &pre { let _ = catch(|| feed(&mut g, tok)); }
+    match via.as_str() { "reset" => g.reset(), "clonefrom" => { g.clone_from(&fresh); g } _ => g }
+}
+/// adds, for a share of the generated specs of the given kinds, copies that enter through reset / clone_from after a history
+pub fn add_entry_points(v: Vec<Spec>, rng: &mut Rng, kinds: &[&str], every: u64, pre: impl Fn(&mut Rng) -> String) -> Vec<Spec> {
+    let mut out = Vec::with_capacity(v.len() + v.len() / every as usize * 2 + 8);
+    let mut firsts: std::collections::BTreeSet<String> = Default::default();
+    for s in v {
+        let injected = ["c0", "cov0", "v0", "shift", "split"].iter().any(|k| s.has(k) && s.get(k) != "0") || (s.has("pre") && !s.get("pre").is_empty());
+        let eligible = kinds.contains(&s.kind.as_str()) && !injected && !s.has("via") && s.has("xs") && !s.get("xs").is_empty() && s.get("xs").len() < 600
+            && !(s.has("ty") && ["clonefrom", "f64c", "f32c"].contains(&s.get("ty")));
+        let first = eligible && firsts.insert(s.kind.clone() + if s.has("N") { s.get("N") } else { "" });
+        if eligible && (first || rng.below(every) == 0) { for via in ["reset", "clonefrom"] { out.push(s.clone().with("via", via).with("prex", pre(rng))); } }
+        out.push(s);
+    }
+    out
+}
